@@ -29,7 +29,7 @@ def work(cases):
         try:
             comb = build(case["term"])
             env = PS.CombinatorEnv(height=case["h"], width=case["w"])
-            value = to_py(case["term"], case["v"])
+            value = case["v"] if case.get("raw") else to_py(case["term"], case["v"])
         except Exception as e:  # noqa
             raise RuntimeError(f"machinery: cannot build case {cid}: {e!r}")
         try:
@@ -84,6 +84,22 @@ def run(tier, seed):
         nid += 1
         cases.append((nid, {"fam": "vrooms", "h": h, "w": w, "term": {"c": "ValuedRooms", "value": {"c": "HexInt"}},
                             "v": [rooms, [17 + i for i in range(len(rooms))]], "big": True}))
+        spec[nid] = {"roundtrip": True, "text": "(not transcribed)", "accepted": True}
+        nid += 1
+    # compositions outside the transcribed families (judged by the round-trip clauses only): items that are zero characters
+    # wide, a Dict in front of an alternative whose cells are lists
+    hx = {"c": "HexInt"}
+    seq0 = {"c": "Seq", "base": hx, "n": 0}
+    extra = [
+        ({"c": "Seq", "base": seq0, "n": 3}, 1, 1, [[], [], []]),
+        ({"c": "Tupl", "elems": [hx, {"c": "Seq", "base": seq0, "n": 2}]}, 1, 1, ([5], [[[], []]])),
+        ({"c": "Grid", "base": {"c": "OneOf", "choices": [{"c": "Dict", "before": ["wall"], "after": ["#"]}, {"c": "Seq", "base": hx, "n": 2}]},
+          "fixed": False, "h": 0, "w": 0}, 2, 3, [["wall", [1, 2], "wall"], [[10, 0], "wall", [15, 15]]]),
+        ({"c": "Seq", "base": {"c": "OneOf", "choices": [{"c": "Dict", "before": ["wall", "gap"], "after": ["#", "_"]},
+                                                          {"c": "Seq", "base": hx, "n": 1}]}, "n": 4}, 1, 1, ["gap", [3], "wall", [0]]),
+    ]
+    for term, h, w, v in extra:
+        cases.append((nid, {"fam": "extra", "h": h, "w": w, "term": term, "v": v, "big": True, "raw": True}))
         spec[nid] = {"roundtrip": True, "text": "(not transcribed)", "accepted": True}
         nid += 1
     with RobustPool(NPROC) as pool:
